@@ -45,6 +45,29 @@ fn exec_affine(case: &Value, out: &mut Out) {
     let js = if quad { xs } else { ms };       // scale of the logged result
     let nz: Vec<usize> = ivec(&case["nz"]).iter().map(|v| *v as usize).collect();     // coordinates that are -0.0
     let xval = |v: i64, j: usize| -> f64 { if v == 0 && nz.contains(&j) { -0.0 } else { v as f64 * sx } };
+    let nzi: Vec<usize> = ivec(&case["nzi"]).iter().map(|v| *v as usize).collect();   // coordinates whose imaginary part is -0.0
+    let xival = |v: i64, j: usize| -> f64 { if v == 0 && nzi.contains(&j) { -0.0 } else { v as f64 * sx } };
+    // LARGE OFFSETS: constants c_r = cm_r * 2^ck_r (complex: + i cmi_r 2^cki_r) override c; M is then integer (ms = 0).  The case is constructed
+    // so that c + M (x + delta e_j) is exactly representable (one ulp of f may be as large as delta); verified below in integer arithmetic
+    let big = case.get("ck").is_some();
+    let (cm, ck, cmi, cki) = (ivec(&case["cm"]), ivec(&case["ck"]), ivec(&case["cmi"]), ivec(&case["cki"]));
+    let cval = |i: usize| -> f64 { if big { cm[i] as f64 * pow2(ck[i]) } else { cre[i] as f64 * sm } };
+    let cival = |i: usize| -> f64 { if big && cmi.len() == m { cmi[i] as f64 * pow2(cki[i]) } else if big { 0.0 } else { cim[i] as f64 * sm } };
+    // exact value of component i at the point p (integers: units of 2^-xs), real and imaginary part
+    let exact = |i: usize, pr: &[i128], pi: &[i128]| -> (i128, i128) {
+        let mut re: i128 = (cm[i] as i128) << (ck[i] + xs) as u32; let mut im: i128 = if cmi.len() == m { (cmi[i] as i128) << (cki[i] + xs) as u32 } else { 0 };
+        for j in 0..n { let (a, b) = (mre[i * n + j] as i128, if mim.len() == m * n { mim[i * n + j] as i128 } else { 0 }); re += a * pr[j] - b * pi[j]; im += a * pi[j] + b * pr[j]; }
+        (re, im) };
+    let legal = |pr: &[i128], pi: &[i128]| -> bool { let d: Vec<usize> = (0..n).filter(|j| pr[*j] != xre[*j] as i128 || pi[*j] != if cx { xim[*j] as i128 } else { 0 }).collect();
+        d.is_empty() || (d.len() == 1 && pr[d[0]] - xre[d[0]] as i128 == dsc as i128 && pi[d[0]] == if cx { xim[d[0]] as i128 } else { 0 }) };
+    let toint = |v: f64| -> Option<i128> { let s = v * pow2(xs); if s.is_finite() && s == s.trunc() { Some(s as i128) } else { None } };
+    let verify = |vals: &[(f64, f64)], pr: &[Option<i128>], pi: &[Option<i128>]| {
+        if !big || pr.iter().chain(pi.iter()).any(|v| v.is_none()) { return; }
+        let (pr, pi): (Vec<i128>, Vec<i128>) = (pr.iter().map(|v| v.unwrap()).collect(), pi.iter().map(|v| v.unwrap()).collect());
+        if !legal(&pr, &pi) { return; }
+        for i in 0..m { let (re, im) = exact(i, &pr, &pi);
+            if toint(vals[i].0) != Some(re) || toint(vals[i].1) != Some(im) { eprintln!("TOOL-ERROR jacobian big-offset case {} is not exactly representable (component {})", cid, i); std::process::exit(2); } }
+    };
     let mut e = json!({"op": if quad { "jac_quad" } else { "jac_affine" }, "cid": cid, "ty": gets(case, "ty"), "m": m, "n": n, "ms": ms, "xs": xs, "dsc": dsc,
                        "M": case["M"], "x": case["x"]});
     if quad { e["p"] = case["p"].clone(); e["s"] = case["s"].clone(); e["q"] = Value::from(qq.clone()); e["u"] = Value::from(qu.clone()); e["M"] = json!({"r": 0, "c": 0, "d": []}); }
@@ -55,7 +78,8 @@ fn exec_affine(case: &Value, out: &mut Out) {
             let mut r = Vec64::new(m, 0.0);
             if quad { for i in 0..m { let v = x[qp[i].min(x.size() - 1)]; let mut val = v * v;
                 if qq[i] >= 0 { let w = x[(qq[i] as usize).min(x.size() - 1)]; val = val - w * w; } r[i] = qs[i] as f64 * val; } return r; }
-            for i in 0..m { let mut s = 0.0; for j in 0..x.size().min(n) { s += (mre[i * n + j] as f64 * sm) * x[j]; } r[i] = s + cre[i] as f64 * sm; }
+            for i in 0..m { let mut s = 0.0; for j in 0..x.size().min(n) { s += (mre[i * n + j] as f64 * sm) * x[j]; } r[i] = s + cval(i); }
+            if x.size() == n { verify(&(0..m).map(|i| (r[i], 0.0)).collect::<Vec<_>>(), &x.vec.iter().map(|v| toint(*v)).collect::<Vec<_>>(), &vec![Some(0); n]); }
             r
         };
         let x0 = Vec64::create(xre.iter().enumerate().map(|(j, v)| xval(*v, j)).collect());
@@ -77,10 +101,11 @@ fn exec_affine(case: &Value, out: &mut Out) {
                 val = val * (qs[i] as f64); if qu[i] == 1 { val = val * Cmplx::new(0.0, 1.0); } r[i] = val; } return r; }
             for i in 0..m { let mut s = Cmplx::new(0.0, 0.0);
                 for j in 0..x.size().min(n) { s = s + Cmplx::new(mre[i * n + j] as f64 * sm, mim[i * n + j] as f64 * sm) * x[j]; }
-                r[i] = s + Cmplx::new(cre[i] as f64 * sm, cim[i] as f64 * sm); }
+                r[i] = s + Cmplx::new(cval(i), cival(i)); }
+            if x.size() == n { verify(&(0..m).map(|i| (r[i].real, r[i].imag)).collect::<Vec<_>>(), &x.vec.iter().map(|v| toint(v.real)).collect::<Vec<_>>(), &x.vec.iter().map(|v| toint(v.imag)).collect::<Vec<_>>()); }
             r
         };
-        let x0 = Vector::<Cmplx>::create((0..n).map(|j| Cmplx::new(xval(xre[j], j), xim[j] as f64 * sx)).collect());
+        let x0 = Vector::<Cmplx>::create((0..n).map(|j| Cmplx::new(xval(xre[j], j), xival(xim[j], j))).collect());
         let res = guarded(|| Matrix::<Cmplx>::jacobian_cmplx(x0, &f, delta));
         let p = pts.borrow();
         e["pts"] = Value::from(p.iter().map(|q| Value::from(q.iter().map(|v| scaled(v.real, xs)).collect::<Vec<i64>>())).collect::<Vec<Value>>());
@@ -245,6 +270,26 @@ fn ignored(rng: &mut R, feat: usize, n: usize) -> Vec<usize> {
 }
 fn zero_cols(m: &mut Value, cols: &[usize]) { let c = m["c"].as_u64().unwrap() as usize; let r = m["r"].as_u64().unwrap() as usize;
     for i in 0..r { for j in cols { m["d"][i * c + *j] = json!(0); } } }
+/// coordinates that coincide with the step: +-delta, +-2 delta, +-delta/2 (complex: also (+-delta, +-0), (0, +-delta), (+-delta, +-delta)) in
+/// random positions (every position over the cases), -delta most often: x_j + delta is then exactly 0.  Integers in units of 2^-xs.
+fn coincide_ints(rng: &mut R, x: &mut Vec<i64>, xi: Option<&mut Vec<i64>>, dsc: i64, nz: &mut Vec<i64>, nzi: &mut Vec<i64>) {
+    let n = x.len(); let force = rng.gen_range(0..n);
+    let mut im = xi;
+    for j in 0..n { if j != force && !rng.gen_bool(0.6) { continue; }
+        let half = if dsc % 2 == 0 { dsc / 2 } else { dsc };
+        x[j] = match rng.gen_range(0..10) { 0 | 1 | 2 => -dsc, 3 => dsc, 4 => 2 * dsc, 5 => -2 * dsc, 6 => half, 7 => -half, 8 => 0, _ => -dsc };
+        nz.retain(|v| *v != j as i64); if x[j] == 0 && rng.gen_bool(0.5) { nz.push(j as i64); }
+        if let Some(v) = im.as_deref_mut() { v[j] = match rng.gen_range(0..6) { 0 | 1 => 0, 2 => { nzi.push(j as i64); 0 } 3 => dsc, 4 => -dsc, _ => 0 }; }
+    }
+}
+fn coincide_f(rng: &mut R, x: &mut Vec<f64>, xi: Option<&mut Vec<f64>>, delta: f64) {
+    let n = x.len(); let force = rng.gen_range(0..n);
+    let mut im = xi;
+    for j in 0..n { if j != force && !rng.gen_bool(0.6) { continue; }
+        x[j] = match rng.gen_range(0..10) { 0 | 1 | 2 => -delta, 3 => delta, 4 => 2.0 * delta, 5 => -2.0 * delta, 6 => 0.5 * delta, 7 => -0.5 * delta, 8 => 0.0, _ => -delta };
+        if let Some(v) = im.as_deref_mut() { v[j] = match rng.gen_range(0..6) { 0 | 1 => 0.0, 2 => -0.0, 3 => delta, 4 => -delta, _ => 0.0 }; }
+    }
+}
 /// shapes for the exactly / tightly computable quadratic maps: 1x1, 1xn, nx1 and a few general ones
 fn quad_shapes() -> Vec<(usize, usize)> { let mut v = vec![(1, 1)]; for n in 2..=6 { v.push((1, n)); v.push((n, 1)); } v.extend([(2, 2), (2, 3), (3, 2), (4, 6), (6, 4), (5, 5)]); v }
 
@@ -258,6 +303,7 @@ pub fn gen(tier: &str, seed: u64, out: &mut Out) {
     let mut kk = rng.gen_range(0..23i64);
     let mut feat = rng.gen_range(0..6usize);
     let mut cfeat = rng.gen_range(0..4usize);
+    let mut coin = rng.gen_range(0..3usize);
     let reps = if quick { 3 } else { 46 };
     for m in 1..=6usize { for n in 1..=6usize { for ty in ["f64", "cx"] { for _ in 0..reps {
         let k = 4 + kk % 23; kk += 1; feat = (feat + 1) % 6;
@@ -293,6 +339,13 @@ pub fn gen(tier: &str, seed: u64, out: &mut Out) {
                 c["M"] = json!({"r": m, "c": n, "d": mre}); c["Mi"] = json!({"r": m, "c": n, "d": mim}); c["nz"] = json!([]); c["cfeat"] = json!(cfeat);
             } else if cfeat == 3 { let mut xi = ivec(&c["xi"]); for j in 0..n { if j % 2 == 0 || rng.gen_bool(0.3) { xi[j] = 0; } } c["xi"] = Value::from(xi); c["cfeat"] = json!(3); }
         }
+        coin = (coin + 1) % 3;
+        if coin == 0 && !matches!(c["cfeat"].as_i64(), Some(1) | Some(2)) {
+            let mut x = ivec(&c["x"]); let mut nz = ivec(&c["nz"]); let mut nzi = vec![]; let dsc = 1i64 << (26 - k);
+            if ty == "cx" { let mut xi = ivec(&c["xi"]); coincide_ints(&mut rng, &mut x, Some(&mut xi), dsc, &mut nz, &mut nzi); c["xi"] = Value::from(xi); }
+            else { coincide_ints(&mut rng, &mut x, None, dsc, &mut nz, &mut nzi); }
+            c["x"] = Value::from(x); c["nz"] = Value::from(nz); c["nzi"] = Value::from(nzi); c["coin"] = json!(true);
+        }
         push(out, c);
     } } } }
     // (a'') affine maps whose matrix mixes O(1) entries (multiples of 1/16, |.| <= 1) with SMALL non-zero entries +-2^-e, e = 8..24 (as far as
@@ -311,6 +364,25 @@ pub fn gen(tier: &str, seed: u64, out: &mut Out) {
         let mut c = json!({"kind": "affine", "ty": ty, "m": m, "n": n, "ms": 24, "xs": 26, "k": k, "dsc": 1i64 << (26 - k), "feat": feat, "small": true, "nz": nz,
                            "M": mat(&mut rng), "c": cv(&mut rng), "x": x});
         if ty == "cx" { c["Mi"] = mat(&mut rng); c["ci"] = Value::from(cv(&mut rng)); let mut xi = xr(&mut rng); if rng.gen_bool(0.3) { for v in xi.iter_mut() { *v = 0; } } c["xi"] = Value::from(xi); }
+        push(out, c);
+    } } } }
+    // (a3) LARGE OFFSETS: f = c + M x with integer M (|entries| <= 4, many +-1), points multiples of 1/2 in [-4,4], delta = 2^-s (s = 4..26) and
+    //      constants c_r = +-m 2^K: K = 51 - s - j, j = 0 (one ulp of f_r equals delta: an entry +-1 changes f_r by exactly one ulp), 1, 2, 4, 8, ...;
+    //      every value c + M (x + delta e_j) is exactly representable (checked in integer arithmetic by the harness): the Jacobian is M exactly
+    let reps = if quick { 1 } else { 12 };
+    for m in 1..=6usize { for n in 1..=6usize { for ty in ["f64", "cx"] { for _ in 0..reps {
+        let k = 4 + kk % 23; kk += 1;
+        let ent = |rng: &mut R| -> i64 { match rng.gen_range(0..6) { 0 | 1 => 1, 2 => -1, 3 => 0, _ => rng.gen_range(-4..=4i64) } };
+        let mat = |rng: &mut R| -> Value { json!({"r": m, "c": n, "d": (0..m * n).map(|_| ent(rng)).collect::<Vec<i64>>()}) };
+        let xr = |rng: &mut R| -> Vec<i64> { (0..n).map(|_| rng.gen_range(-8..=8i64) << 25).collect() };
+        let cst = |rng: &mut R| -> (Vec<i64>, Vec<i64>) { let mut ms = vec![]; let mut ks = vec![];
+            for _ in 0..m { let j = [0i64, 0, 0, 1, 2, 4, 8, 16, 24][rng.gen_range(0..9)]; let kx = (51 - k - j).max(0);
+                let mant = if j == 0 { [2i64, 3][rng.gen_range(0..2)] } else { [1i64, 3, 5, 7][rng.gen_range(0..4)] };
+                ms.push(if rng.gen_bool(0.5) { mant } else { -mant }); ks.push(kx); } (ms, ks) };
+        let (cm, ck) = cst(&mut rng);
+        let mut c = json!({"kind": "affine", "ty": ty, "m": m, "n": n, "ms": 0, "xs": 26, "k": k, "dsc": 1i64 << (26 - k), "big": true, "nz": [],
+                           "M": mat(&mut rng), "c": vec![0i64; m], "cm": cm, "ck": ck, "x": xr(&mut rng)});
+        if ty == "cx" { let (cmi, cki) = cst(&mut rng); c["Mi"] = mat(&mut rng); c["ci"] = Value::from(vec![0i64; m]); c["cmi"] = Value::from(cmi); c["cki"] = Value::from(cki); c["xi"] = Value::from(xr(&mut rng)); }
         push(out, c);
     } } } }
     // (a') exactly computable NON-affine maps: f_i = s_i x_{p_i}^2, x multiples of 1/16 (|x| <= 4 for k <= 23, |x| <= 1/2 for k = 24..26:
@@ -337,6 +409,13 @@ pub fn gen(tier: &str, seed: u64, out: &mut Out) {
         let u: Vec<i64> = if qv == 3 { (0..m).map(|i| if q[i] >= 0 { u[i] } else { 0 }).collect() } else { u };
         let mut c = json!({"kind": "quad", "ty": ty, "m": m, "n": n, "ms": 0, "xs": 26, "k": k, "dsc": 1i64 << (26 - k), "feat": feat, "qv": qv, "nz": nz, "x": x, "p": p, "s": s, "q": q, "u": u});
         if ty == "cx" { c["xi"] = if qv == 3 { Value::from(vec![0i64; n]) } else { Value::from(xr(&mut rng)) }; }
+        coin = (coin + 1) % 3;
+        if coin == 0 && qv != 3 {
+            let mut x = ivec(&c["x"]); let mut nz = ivec(&c["nz"]); let mut nzi = vec![]; let dsc = 1i64 << (26 - k);
+            if ty == "cx" { let mut xi = ivec(&c["xi"]); coincide_ints(&mut rng, &mut x, Some(&mut xi), dsc, &mut nz, &mut nzi); c["xi"] = Value::from(xi); }
+            else { coincide_ints(&mut rng, &mut x, None, dsc, &mut nz, &mut nzi); }
+            c["x"] = Value::from(x); c["nz"] = Value::from(nz); c["nzi"] = Value::from(nzi); c["coin"] = json!(true);
+        }
         push(out, c);
     } } }
     // (b) smooth maps, all shapes, delta = 1e-8 and 2^-k (k = 4..26); the same special points (here as f64 bit patterns)
@@ -361,6 +440,13 @@ pub fn gen(tier: &str, seed: u64, out: &mut Out) {
                            "p": ix(&mut rng), "q": ix(&mut rng), "r": ix(&mut rng), "x": hx(&x)});
         if ty == "cx" { c["ai"] = Value::from(coa(&mut rng)); c["bi"] = Value::from(co(&mut rng, m)); c["ci"] = Value::from(co(&mut rng, m));
             let mut xi = pt(&mut rng); special_f(&mut rng, if feat == 3 { 3 } else { 0 }, &mut xi); c["xi"] = Value::from(hx(&xi)); }
+        coin = (coin + 1) % 3;
+        if coin == 0 {
+            let mut xx = x.clone();
+            if ty == "cx" { let mut xi: Vec<f64> = c["xi"].as_array().unwrap().iter().map(hexf).collect(); coincide_f(&mut rng, &mut xx, Some(&mut xi), delta); c["xi"] = Value::from(hx(&xi)); }
+            else { coincide_f(&mut rng, &mut xx, None, delta); }
+            c["x"] = Value::from(hx(&xx)); c["coin"] = json!(true);
+        }
         push(out, c);
     } } } }
     // (b') f_i = s_i x_{p_i}^2 at general points with delta = 1e-8 (and now and then 2^-k): tight oracle in units of eps |f| / delta;
@@ -380,6 +466,13 @@ pub fn gen(tier: &str, seed: u64, out: &mut Out) {
         let s: Vec<i64> = (0..m).map(|_| if rng.gen_bool(0.5) { 1 } else { -1 }).collect();
         let mut c = json!({"kind": "sq", "ty": ty, "m": m, "n": n, "delta": jhex(delta), "feat": feat, "x": hx(&x), "p": p, "s": s});
         if ty == "cx" { c["xi"] = Value::from(hx(&pt(&mut rng))); }
+        coin = (coin + 1) % 3;
+        if coin == 0 {
+            let mut xx = x.clone();
+            if ty == "cx" { let mut xi: Vec<f64> = c["xi"].as_array().unwrap().iter().map(hexf).collect(); coincide_f(&mut rng, &mut xx, Some(&mut xi), delta); c["xi"] = Value::from(hx(&xi)); }
+            else { coincide_f(&mut rng, &mut xx, None, delta); }
+            c["x"] = Value::from(hx(&xx)); c["coin"] = json!(true);
+        }
         push(out, c);
     } } }
 }
